@@ -62,6 +62,7 @@ type HeldSpec struct {
 
 type CallbackSpec struct {
 	Invariants []Clause
+	Stops      bool // the callback returns a bool and must not be invoked again after it returned false
 }
 
 type ContractSet struct {
@@ -323,6 +324,16 @@ func (cs *ContractSet) parseContractText(file, pkgName string, text string) erro
 			}
 		case "callback":
 			f := strings.Fields(rest)
+			if len(f) == 2 && f[1] == "stops" && cur != nil {
+				if cur.Callbacks == nil {
+					cur.Callbacks = map[string]*CallbackSpec{}
+				}
+				if cur.Callbacks[f[0]] == nil {
+					cur.Callbacks[f[0]] = &CallbackSpec{}
+				}
+				cur.Callbacks[f[0]].Stops = true
+				continue
+			}
 			if len(f) < 3 || (f[1] != "invariant" && f[1] != "assume") {
 				return fmt.Errorf("%s:%d: bad callback clause", file, ln+1)
 			}
